@@ -177,12 +177,27 @@ def ref_plan(streams, dgrams):
     return [(sid, streams[sid][0], streams[sid][1]) for sid in order] + [("dgram", d) for d in dgrams]
 
 
+def receiver_for(traffic, finished_requests):
+    """-> kwargs for h3bench.deliver: a receiving client that has already sent (and finished) the requests the responses belong to"""
+    from aioquic.h3.connection import H3Connection
+    from vlib import h3bench as B
+
+    if traffic["sender_is_client"] or not finished_requests:
+        return {}
+    q = B.StubQuic(True)
+    h3 = H3Connection(q, enable_webtransport=True)
+    for sid in sorted(s for s in traffic["streams"] if s % 4 == 0):
+        mine = q.get_next_available_stream_id()
+        h3.send_headers(mine, [(b":method", b"GET"), (b":scheme", b"https"), (b":authority", b"example.com"), (b":path", b"/%d" % mine)], end_stream=True)
+    return {"h3": h3, "quic": q}
+
+
 def check_plan(ctx, traffic, plan, ref_norm, case, nontrivial_hint):
     from vlib import h3bench as B
 
     receiver_is_client = not traffic["sender_is_client"]
     try:
-        evs, q, h3 = B.deliver(plan, receiver_is_client)
+        evs, q, h3 = B.deliver(plan, receiver_is_client, **receiver_for(traffic, case.get("finished_requests", False)))
     except Exception as e:
         ctx.violation("receiver-raised-" + type(e).__name__, "handle_event raised %r on valid traffic" % (e,), case)
         return
@@ -255,9 +270,10 @@ def random_plans(ctx, examples, shard, plans_per_traffic):
         streams = traffic["streams"]
         thash = h64((direction, tuple(draws)))
         refp = ref_plan(streams, traffic["dgrams"])
-        case0 = {"kind": "plan", "direction": direction, "draws": draws, "plan": plan_desc(refp)}
+        finished_requests = direction == "s2c" and len(draws) % 2 == 0
+        case0 = {"kind": "plan", "direction": direction, "draws": draws, "plan": plan_desc(refp), "finished_requests": finished_requests}
         try:
-            evs, q, _ = B.deliver(refp, not traffic["sender_is_client"])
+            evs, q, _ = B.deliver(refp, not traffic["sender_is_client"], **receiver_for(traffic, finished_requests))
         except Exception as e:
             ctx.violation("receiver-raised-" + type(e).__name__, "handle_event raised %r on valid traffic (whole delivery)" % (e,), case0)
             return
@@ -309,7 +325,7 @@ def random_plans(ctx, examples, shard, plans_per_traffic):
                 if any(p[0] != "dgram" and p[0] % 4 in (0, 1) and i < last_enc for i, p in enumerate(plan)):
                     nt = True
                     ctx.cls("plan:request-before-encoder-stream-complete")
-            case = {"kind": "plan", "direction": direction, "draws": draws, "plan": [[p[0], p[1], p[2]] if p[0] != "dgram" else ["dgram", p[1]] for p in plan]}
+            case = {"kind": "plan", "direction": direction, "draws": draws, "finished_requests": finished_requests, "plan": [[p[0], p[1], p[2]] if p[0] != "dgram" else ["dgram", p[1]] for p in plan]}
             ctx.case((thash, tuple((p[0], len(p[1])) for p in plan)), nontrivial=nt, classes=["plan"])
             check_plan(ctx, traffic, plan, ref_norm, case, nt)
             if ctx.want_sample():
@@ -395,7 +411,7 @@ def replay(ctx, case):
     it = iter(draws)
     traffic = gen_traffic(lambda a, b: next(it), lambda xs: xs[next(it)], case["direction"])
     refp = ref_plan(traffic["streams"], traffic["dgrams"])
-    evs, q, _ = B.deliver(refp, not traffic["sender_is_client"])
+    evs, q, _ = B.deliver(refp, not traffic["sender_is_client"], **receiver_for(traffic, case.get("finished_requests", False)))
     ref_norm = B.normalise(evs)
     ctx.case(None, True)
     roundtrip_check(ctx, traffic, ref_norm, case)
